@@ -1,12 +1,15 @@
 """C10 — written lines obey MCNP's physical line rules without changing content.
 
-Obligations: coq/Properties/C10.v over coq/Model/Wrap.v (textwrap._wrap_chunks + wrap_string_for_mcnp).
-Correspondence: MCNP_Object.wrap_string_for_mcnp on generated strings vs the extracted Wrap model,
-byte for byte; on every case also: real chunks concatenate to the munged text, and for hyphen-free
-text the real chunker equals the model's split_ws.
-Oracle (search): whole problems whose cards approach the limit, edited so numbers grow, written for the
-128- and 80-column regimes: line length, continuation indent, first-line rule, and the files written for
-both regimes must denote the same inputs/comments under the independent reader (spec.py).
+Obligations: coq/Properties/C10.v over coq/Model/Wrap.v (textwrap._munge_whitespace/_wrap_chunks/_handle_long_word,
+utilities.is_comment, MCNP_Object._wrap_line, MCNP_Object.wrap_string_for_mcnp).
+Correspondence: MCNP_Object.wrap_string_for_mcnp on generated strings vs the extracted Wrap model, byte for byte
+(the model also refuses chunk lists that do not concatenate to its own munged text); is_comment vs the model's;
+for hyphen-free text the real chunker equals the model's split_ws.
+Oracle on strings (independent S5-S7 rules of spec.py applied to the real output): line length, continuation rule,
+data tokens and comment text of the wrapped lines = those of the unwrapped line, no blank-only line.
+Oracle on files (search): whole problems whose cards and comments approach the limit, edited so numbers grow, written
+for the 128- and 80-column regimes: line length, and the two files must denote the same inputs and the same comment
+text under the independent reader (spec.py).
 """
 import json
 import os
@@ -21,6 +24,7 @@ import gen
 import mp
 
 VERSIONS = {128: (6, 2, 0), 80: (5, 1, 60)}
+_TW = textwrap.TextWrapper(width=80, drop_whitespace=False)
 
 
 def hx(s):
@@ -32,64 +36,203 @@ def unhx(s):
 
 
 def real_chunks(line):
-    w = textwrap.TextWrapper(width=80, drop_whitespace=False)
-    return w._split(w._munge_whitespace(line)), w._munge_whitespace(line)
+    m = _TW._munge_whitespace(line)
+    return _TW._split(m), m
+
+
+def _chunks_field(text):
+    return ",".join(hx(c) for c in real_chunks(text)[0]) or "-"
+
+
+def line_field(l):
+    if "$" in l:
+        data, comment = l.split("$", 1)
+        d, c = _chunks_field(data), _chunks_field("$" + comment)
+    else:
+        d, c = "-", "-"
+    return "%s:%s:%s:%s" % (hx(l) or "x", _chunks_field(l), d, c)
 
 
 def request_of(case):
     lines = case["string"].splitlines()
-    parts = []
-    for l in lines:
-        ch, _ = real_chunks(l)
-        parts.append(",".join(hx(c) for c in ch) or "-")
-    return "%d %d 5 %s" % (case["W"], 1 if case["first"] else 0, "/".join(parts) or "-")
+    return "%d %d 5 %s" % (case["W"], 1 if case["first"] else 0, "/".join(line_field(l) for l in lines) or "-")
 
 
 def real_wrap(case):
     from montepy.mcnp_object import MCNP_Object
     with warnings.catch_warnings():
         warnings.simplefilter("ignore")
-        return MCNP_Object.wrap_string_for_mcnp(case["string"], VERSIONS[case["W"]], case["first"])
+        try:
+            return MCNP_Object.wrap_string_for_mcnp(case["string"], VERSIONS[case["W"]], case["first"])
+        except Exception as e:            # compared as the exception class
+            return type(e).__name__
+
+
+def show_real(real):
+    if isinstance(real, str):
+        return real
+    return ",".join(hx(l) for l in real) or "-"
+
+
+# ---------------------------------------------------------------------------- string generator
+WORDS = ["a", "comment", "with", "several", "words", "in", "it", "x=1", "2", "3", "density", "of", "the", "fuel",
+         "c", "$", "1.5e-3", "(not", "data)", "u=4", "water-moderated", "be-met.40t", "c-c"]
+
+
+def comment_text(rng, n):
+    out = []
+    cur = 0
+    while cur < n:
+        w = rng.choice(WORDS) if rng.random() < 0.93 else "z" * rng.choice([30, 75, 90, 130, 200])
+        sep = " " * rng.choice([1, 1, 1, 1, 2, 4])
+        out.append(w + sep)
+        cur += len(w) + len(sep)
+    return "".join(out)
+
+
+def data_text(rng, W, target):
+    toks = []
+    cur = 0
+    while cur < target:
+        r = rng.random()
+        if r < 0.5:
+            t = gen.fmt_real(rng)
+        elif r < 0.6:
+            t = rng.choice(["imp:n=1", "vol=2.5", "u=3", "fill=4", "(", ")", ":", "#5", "-12", "+7"])
+        elif r < 0.68:
+            t = rng.choice(["be-met.40t", "h-h2o.40t", "lwtr.10t", "one-two-three", "a--b", "x-y", "1e-5", "---", "-", "--x"])
+        elif r < 0.72:
+            t = "w" * rng.choice([1, 20, W - 6, W - 5, W - 4, W, W + 9, 2 * W + 1])
+        elif r < 0.75:
+            t = "\t" + gen.fmt_real(rng)
+        elif r < 0.78:
+            t = rng.choice(["92235.80c", "1001.710nc", "c", "C"])
+        else:
+            t = str(rng.randint(-99999, 99999))
+        sep = " " * rng.choice([1, 1, 1, 2, 5])
+        toks.append(t)
+        cur += len(t) + len(sep)
+        toks.append(sep)
+    return "".join(toks)
+
+
+def gen_line(rng, W):
+    kind = rng.choice(["data", "data", "dollar", "dollar", "dollar", "cline", "cline", "blankdollar", "odd"])
+    near = [W - 8, W - 2, W - 1, W, W + 1, W + 3, W + 30, 2 * W + 5, 3 * W]
+    start = rng.choice(["", "", "", "     ", "      ", "  "])
+    if kind == "data":
+        line = start + data_text(rng, W, rng.choice([10] + near))
+        if rng.random() < 0.15:
+            line += "$ " + rng.choice(["a comment with several words in it", "c", "x=1 2 3"])
+    elif kind == "dollar":
+        # data of every length (short / about half the width / near the limit) then a comment that reaches the limit
+        dlen = rng.choice([0, 3, 12, W // 2 - 3, W // 2 - 1, W // 2, W // 2 + 1, W - 12, W - 3, W - 1, W, W + 4, 2 * W])
+        data = start + (data_text(rng, W, dlen) if dlen else rng.choice(["1 ", "2 0", ""]))
+        if rng.random() < 0.3:
+            data = data.rstrip() + " " * rng.choice([0, 1, 2, 7])
+        total = rng.choice(near)
+        line = data + "$" + rng.choice(["", " ", " "]) + comment_text(rng, max(0, total - len(data)))
+    elif kind == "cline":
+        ind = rng.choice(["", "", "", " ", "    ", "     ", "          ", "\t"])
+        mark = rng.choice(["c ", "c ", "C ", "c", "c  ", "c\t"])
+        line = ind + mark + comment_text(rng, rng.choice([3] + near))
+    elif kind == "blankdollar":
+        line = " " * rng.choice([0, 1, 4, 5, 6, 20, W // 2, W - 6, W - 1, W, W + 5]) + "$ " + \
+            comment_text(rng, rng.choice([5, W // 2, W, W + 20]))
+    else:
+        line = rng.choice(["c", "C", " c", "c$", "$", "     $", "$ x", "c " + "$" * (W + 3), "1 2 $" + "$ " * W,
+                           "\xa0 1 2", "1\x1f2 " * (W // 3), "\t\t1 $ " + "t " * W, "1" + "\t" * 8 + "2 $ " + "word " * 6,
+                           "a-b-c-" * (W // 4), " " * (W + 3) + "7"])
+    if rng.random() < 0.5:
+        line = line.rstrip(" ")
+    return line
 
 
 def gen_string(rng):
     W = rng.choice([80, 128])
     nlines = rng.choice([1, 1, 1, 2, 3])
-    out = []
-    for _ in range(nlines):
-        target = rng.choice([10, W - 8, W - 2, W - 1, W, W + 1, W + 3, W + 30, 2 * W + 5, 3 * W])
-        toks = []
-        cur = 0
-        start = rng.choice(["", "", "     ", "      "])
-        while cur < target:
-            r = rng.random()
-            if r < 0.5:
-                t = gen.fmt_real(rng)
-            elif r < 0.6:
-                t = rng.choice(["imp:n=1", "vol=2.5", "u=3", "fill=4", "(", ")", ":", "#5", "-12", "+7"])
-            elif r < 0.7:
-                t = rng.choice(["be-met.40t", "h-h2o.40t", "lwtr.10t", "one-two-three", "a--b", "x-y", "1e-5", "---", "-", "--x"])
-            elif r < 0.75:
-                t = "$ " + rng.choice(["a comment with several words in it", "c", "x=1 2 3"])
-            elif r < 0.8:
-                t = "w" * rng.choice([1, 20, W - 6, W - 5, W - 4, W, W + 9, 2 * W + 1])
-            elif r < 0.83:
-                t = "\t" + gen.fmt_real(rng)
-            elif r < 0.86:
-                t = rng.choice(["92235.80c", "1001.710nc", "c", "C"])
-            else:
-                t = str(rng.randint(-99999, 99999))
-            sep = " " * rng.choice([1, 1, 1, 2, 5])
-            toks.append(t)
-            cur += len(t) + len(sep)
-            toks.append(sep)
-        line = start + "".join(toks)
-        if rng.random() < 0.5:
-            line = line.rstrip()
-        out.append(line)
+    out = [gen_line(rng, W) for _ in range(nlines)]
     if rng.random() < 0.1:
         out.insert(rng.randrange(len(out) + 1), rng.choice(["", "   ", "          "]))
-    return {"W": W, "first": rng.random() < 0.8, "string": "\n".join(out)}
+    return {"W": W, "first": rng.random() < 0.85, "string": "\n".join(out)}
+
+
+# ---------------------------------------------------------------------------- string oracle (independent rules)
+def _comment_of(l):
+    """(is comment line, data text, comment text) of one physical line, by spec.py's S5/S6"""
+    if spec.is_comment_line(l):
+        return True, "", re.sub(r"^ {0,4}[cC] ?", "", l)
+    data, dollar = spec.split_dollar(l)
+    return False, data, dollar or ""
+
+
+def string_oracle_line(line, W, first):
+    """One source line wrapped on its own by the real code, judged by the independent rules.
+    -> None or (kind, detail)"""
+    real = real_wrap({"W": W, "first": first, "string": line})
+    if isinstance(real, str):
+        return ("string-exception", real)
+    if not line.strip():
+        return None if real == [] else ("string-blank-source-written", real)
+    ii = "" if first else " " * 5
+    ref = (ii + line).expandtabs(8)
+    out = [l.expandtabs(8) for l in real]
+    for l in out:
+        if len(l) > W:
+            return ("string-line-too-long", [len(l), l])
+        if not l.strip():
+            return ("string-blank-line", out)
+    ref_c, ref_data, ref_comment = _comment_of(ref)
+    if not out:
+        return ("string-line-lost", ref)
+    for k, l in enumerate(out):
+        isc = spec.is_comment_line(l)
+        if k == 0:
+            # the first physical line starts the way the unwrapped line does
+            if isc != ref_c or (l[:5].strip() == "") != (ref[:5].strip() == ""):
+                return ("string-first-line-kind", [ref[:40], l[:40]])
+        elif not (l[:5] == "     " or (isc and ref_c)):
+            return ("string-continuation", [k, l[:40]])
+    toks = [t for l in out for t in ([] if spec.is_comment_line(l) else spec.split_dollar(l)[0].split())]
+    ref_toks = ref_data.split()
+    unwritable = any(len(t) > W - 5 for t in ref_toks)        # a token longer than a continuation line must be cut
+    if toks != ref_toks and not unwritable:
+        i = next((i for i, (a, b) in enumerate(zip(toks, ref_toks)) if a != b), min(len(toks), len(ref_toks)))
+        return ("string-data-tokens", {"expected": ref_toks[max(0, i - 1):i + 2], "written": toks[max(0, i - 1):i + 3]})
+    if unwritable and "".join(toks) != "".join(ref_toks):
+        return ("string-data-characters", [ref[:60]])
+    com = "".join(_comment_of(l)[2] for l in out).replace(" ", "")
+    if com != ref_comment.replace(" ", ""):
+        return ("string-comment-text", {"expected": ref_comment.replace(" ", "")[:80], "written": com[:80]})
+    return None
+
+
+def string_oracle(case):
+    """-> None or failure dict (first failing source line)"""
+    for line in case["string"].splitlines():
+        r = string_oracle_line(line, case["W"], case["first"])
+        if r is not None:
+            return {"kind": r[0], "detail": r[1], "line": line}
+    return None
+
+
+def shrink_line(line, W, first, kind):
+    """greedy: drop words / shorten runs while the same kind of failure stays"""
+    def bad(x):
+        r = string_oracle_line(x, W, first)
+        return r is not None and r[0] == kind
+    cur = line
+    progress = True
+    while progress:
+        progress = False
+        parts = re.split(r"( +)", cur)
+        for i in range(len(parts) - 1, -1, -1):
+            cand = "".join(parts[:i] + parts[i + 1:])
+            if cand != cur and bad(cand):
+                cur = cand
+                progress = True
+                break
+    return cur
 
 
 # ---------------------------------------------------------------------------- whole-file oracle
@@ -97,19 +240,40 @@ def line_rule_violations(text, W):
     """physical rules on a written file"""
     bad = []
     for i, l in enumerate(text.split("\n")):
-        if len(l) > W:
+        if len(l.expandtabs(8)) > W:
             bad.append(("too long", i + 1, len(l), l[:60]))
     return bad
 
 
+def lengthen_comments(rng, text, width):
+    """make '$' comments and 'c' comment lines of a rendered problem reach the neighbourhood of [width]
+    (the problem is read in the 128-column regime, so nothing is lost on reading)"""
+    lines = text.split("\n")
+    out = []
+    for i, l in enumerate(lines):
+        if i == 0 or not l.strip() or rng.random() < 0.5:
+            out.append(l)
+            continue
+        if re.match(r"^ {0,4}[cC] ", l) or "$" in l:
+            room = width - len(l) - 1
+            if room > 8:
+                extra = comment_text(rng, rng.choice([room // 2, room - 6, room - 2]))[:room].rstrip()
+                extra = extra.replace("$", "S")
+                l = l.rstrip() + " " + extra
+        out.append(l)
+    return "\n".join(out)
+
+
 def problem_case(rng, idx):
-    """a problem whose cards are laid out close to the limit + edits that make numbers longer"""
+    """a problem whose cards and comments are laid out close to the limit + edits that make numbers longer"""
     P = gen.gen_problem(rng, dict(max_cells=6))
-    width = rng.choice([80, 80, 128])
+    width = rng.choice([80, 80, 128, 128])
     L = gen.layout_opts(rng, wild=False, width=width)
     L["width"] = width - rng.choice([0, 0, 1, 2, 10])
-    L["dollar"] = rng.choice([0, 0, 0.1, 0.3])
+    L["dollar"] = rng.choice([0, 0, 0.1, 0.3, 0.5])
     text = gen.render(rng, P, L)
+    if rng.random() < 0.6 and not P.get("message"):
+        text = lengthen_comments(rng, text, 128)
     edits = []
     for _ in range(rng.choice([0, 1, 2, 4])):
         s = rng.choice(P["meta"]["surfaces"])
@@ -131,38 +295,57 @@ def apply_edits(pr, edits):
             pr.title = e[1]
 
 
-def check_problem(case):
+def block_comment_text(sp):
+    """comment text of every block with the blanks removed: where a long comment is broken is not content"""
+    return ["".join(t for c in b for t in c.comments).replace(" ", "") for b in sp["blocks"]]
+
+
+def check_problem(case, stats=None):
     """-> None or failure dict"""
     try:
         pr = mp.read_problem(case["text"])
     except Exception as e:   # reading is C12/C13's business
+        if stats is not None:
+            stats["read_failed"] += 1
         return None
     try:
         apply_edits(pr, case["edits"])
         out128 = mp.write_problem(pr, "o128.i", (6, 2, 0))
         out80 = mp.write_problem(pr, "o80.i", (5, 1, 60))
     except Exception as e:
+        if stats is not None:
+            stats["write_failed"] += 1
         return None
+    if stats is not None:
+        n80 = out80.count("\n")
+        stats["wrapped80"] += n80 > out128.count("\n")
+        stats["comment_continuations80"] += len(re.findall(r"^     \$ ", out80, re.M))
     for W, out in ((128, out128), (80, out80)):
         bad = line_rule_violations(out, W)
         if bad:
             return {"kind": "line-too-long", "W": W, "detail": bad[:3]}
-        sp = spec.split_file(out, W)
-        # a continuation line must start with >= 5 blanks; a card must not start as comment/continuation:
-        # both are implied by the re-split giving the same cards as the other regime, checked next
-    a = case.get("title_edit")
-    diffs = spec.compare_files(out128, out80, 128, 80)
+    # a continuation line must start with >= 5 blanks; a card must not start as comment/continuation; comment text
+    # must stay comment and data stay data: all are implied by the re-split of the 80-column file giving the same
+    # cards and the same comment text as the 128-column file, checked next
+    diffs = spec.compare_files(out128, out80, 128, 80, check_comments=False)
     # a title/message longer than the limit is truncated by design (Title.format_for_mcnp_input)
     diffs = [d for d in diffs if d[0] not in ("title", "message")]
     if diffs:
         return {"kind": "regimes-differ", "detail": [list(map(str, d))[:5] for d in diffs[:2]],
+                "has_dollar": "$" in out128}
+    ca = block_comment_text(spec.split_file(out128, 128))
+    cb = block_comment_text(spec.split_file(out80, 80))
+    if ca != cb:
+        bi = next(i for i, (x, y) in enumerate(zip(ca + [None], cb + [None])) if x != y)
+        x, y = (ca + [""])[bi] or "", (cb + [""])[bi] or ""
+        k = next((i for i, (p, q) in enumerate(zip(x, y)) if p != q), min(len(x), len(y)))
+        return {"kind": "regimes-differ", "detail": [["comment text", str(bi), x[max(0, k - 20):k + 30], y[max(0, k - 20):k + 30]]],
                 "has_dollar": "$" in out128}
     return None
 
 
 def shrink_problem(case, failing):
     cur = dict(case)
-    lines = cur["text"].split("\n")
     # drop edits
     for i in range(len(cur["edits"]) - 1, -1, -1):
         cand = dict(cur, edits=cur["edits"][:i] + cur["edits"][i + 1:])
@@ -171,63 +354,91 @@ def shrink_problem(case, failing):
     return cur
 
 
-def replay(ctx, path):
-    case = json.load(open(path))
+# ---------------------------------------------------------------------------- replay
+def load_case(path):
+    with open(path) as fh:
+        case = json.load(fh)
     c = case.get("case", case)
-    if "string" in c:
-        ok, _ = vlib.coq_make(["Model/Wrap.vo"])
-        ans = vlib.model_ask("Wrap", [request_of(c)])[0]
-        real = ",".join(hx(l) for l in real_wrap(c)) or "-"
-        bad = ans != real
-    else:
+    if "edits" in c:
         c["edits"] = [tuple(e) for e in c["edits"]]
-        bad = check_problem(c) is not None
-    if bad:
-        print("REPLAY property=C10 still fails")
+    return c
+
+
+def case_fails(c):
+    """a committed case (string case or whole problem) -> failure description or None"""
+    if "string" in c:
+        vlib.coq_make(["Model/Wrap.vo"])
+        ans = vlib.model_ask("Wrap", [request_of(c)])[0]
+        if ans != show_real(real_wrap(c)):
+            return {"kind": "correspondence", "model": ans, "real": show_real(real_wrap(c))}
+        return string_oracle(c)
+    return check_problem(c)
+
+
+def replay(ctx, path):
+    c = load_case(path)
+    r = case_fails(c)
+    if r is not None:
+        print("REPLAY property=C10 still fails:", json.dumps(r, default=str)[:600])
         print(f"VIOLATION property=C10 replay={path}")
         return 1
     print("REPLAY property=C10 passes")
     return 0
 
 
+# ---------------------------------------------------------------------------- run
 def run(ctx):
     n_str = 1500 if ctx.tier == "quick" else 60000
-    n_prob = 150 if ctx.tier == "quick" else 6000
+    n_prob = 140 if ctx.tier == "quick" else 6000
     ctx.prove()
     ok, log = vlib.coq_make(["Model/Wrap.vo"])
     if not ok:
         ctx.broken_obligations.append({"obligation": "Model/Wrap.vo builds", "detail": log[-800:]})
         return ctx.finish(vlib.KERNEL_TB, [], "model did not build")
-    # ---- correspondence on strings
-    cases = []
+    # ---- corpus of string cases (regressions) + generated strings
+    cdir = os.path.join(vlib.VERIF, "corpus", "C10")
+    corpus_s, corpus_p = [], []
+    if os.path.isdir(cdir):
+        for f in sorted(os.listdir(cdir)):
+            c = load_case(os.path.join(cdir, f))
+            (corpus_s if "string" in c else corpus_p).append(c)
+    cases = list(corpus_s)
     for i in range(n_str):
         cases.append(gen_string(random.Random(f"{ctx.seed}:C10:s:{i}")))
     reqs = [request_of(c) for c in cases]
     answers = vlib.model_ask("Wrap", reqs)
-    nx, bad = vlib.vm_crosscheck("Wrap", reqs, answers, sample=60 if ctx.tier == "quick" else 300, seed=ctx.seed)
+    nx, bad = vlib.vm_crosscheck("Wrap", reqs, answers, sample=50 if ctx.tier == "quick" else 300, seed=ctx.seed)
     if bad:
         ctx.broken_obligations.append({"obligation": "extraction cross-check Wrap", "detail": bad[:2]})
     dist = {"W": {80: 0, 128: 0}, "wrapped": 0, "unwrapped": 0, "long_word_cut": 0, "hyphen_chunks": 0,
-            "with_dollar": 0, "multi_line_strings": 0}
+            "with_dollar": 0, "multi_line_strings": 0, "not_first": 0,
+            "overlong_lines": 0, "overlong_c_comment_lines": 0, "overlong_dollar_lines": 0,
+            "dollar_comment_appended": 0, "dollar_comment_continued": 0, "dollar_started_on_data_line": 0,
+            "c_continuation_lines": 0, "with_tab": 0, "corpus_strings": len(corpus_s)}
     corr_bad = []
     split_bad = []
-    sw_reqs = []
-    sw_expect = []
+    sw_reqs, sw_expect = [], []
+    ic_reqs, ic_expect = [], []
+    from montepy.utilities import is_comment as real_is_comment
     for c, ans in zip(cases, answers):
         ctx.cov["programs"] += 1
         real = real_wrap(c)
-        realx = ",".join(hx(l) for l in real) or "-"
-        nlines = len([l for l in c["string"].splitlines() if l.strip()])
-        wrapped = len(real) > nlines
-        ctx.count_case(reqs[len(corr_bad) + ctx.cov["programs"] - 1] if False else (c["W"], c["first"], c["string"]), nontrivial=wrapped)
+        realx = show_real(real)
+        src = [l for l in c["string"].splitlines() if l.strip()]
+        wrapped = not isinstance(real, str) and len(real) > len(src)
+        ctx.count_case((c["W"], c["first"], c["string"]), nontrivial=wrapped)
         dist["W"][c["W"]] += 1
         dist["wrapped" if wrapped else "unwrapped"] += 1
         dist["with_dollar"] += "$" in c["string"]
-        dist["multi_line_strings"] += nlines > 1
+        dist["with_tab"] += "\t" in c["string"]
+        dist["multi_line_strings"] += len(src) > 1
+        dist["not_first"] += not c["first"]
         ctx.cov["disagreements_checked"] += 1
         if realx != ans:
-            corr_bad.append({"case": c, "real": real, "model": [unhx(x) for x in ans.split(",")] if ans not in ("-", "outoffuel") else ans})
-        for l in c["string"].splitlines():
+            corr_bad.append({"case": c, "real": real,
+                             "model": [unhx(x) for x in ans.split(",")] if re.fullmatch(r"[0-9a-f,]+", ans) else ans})
+        ii = 0 if c["first"] else 5
+        for l in src:
             ch, munged = real_chunks(l)
             if "".join(ch) != munged:
                 split_bad.append({"line": l, "chunks": ch})
@@ -238,76 +449,105 @@ def run(ctx):
                 sw_expect.append(",".join(hx(x) for x in ch) or "-")
             elif munged:
                 dist["hyphen_chunks"] += 1
+            ic_reqs.append("iscomment " + (hx(l) or "x"))
+            ic_expect.append("1" if real_is_comment(l) else "0")
+            if ii + len(l) > c["W"]:
+                dist["overlong_lines"] += 1
+                if real_is_comment(l):
+                    dist["overlong_c_comment_lines"] += 1
+                elif "$" in l:
+                    dist["overlong_dollar_lines"] += 1
+        if not isinstance(real, str):
+            n_cont = len([l for l in real if l.startswith("     $ ")])
+            dist["dollar_comment_continued"] += n_cont > 0
+            dist["c_continuation_lines"] += len([l for l in real[1:] if l.startswith("c ")])
     sw_ans = vlib.model_ask("Wrap", sw_reqs)
     sw_bad = [(unhx(r.split()[1]), a, e) for r, a, e in zip(sw_reqs, sw_ans, sw_expect) if a != e]
-    ctx.sample({"W": cases[0]["W"], "first": cases[0]["first"], "string": cases[0]["string"],
-                "wrapped": real_wrap(cases[0])})
+    ic_ans = vlib.model_ask("Wrap", ic_reqs)
+    ic_bad = [(r, a, e) for r, a, e in zip(ic_reqs, ic_ans, ic_expect) if a != e]
+    ctx.sample({"W": cases[-1]["W"], "first": cases[-1]["first"], "string": cases[-1]["string"],
+                "wrapped": real_wrap(cases[-1])})
     if corr_bad:
         ctx.broken_obligations.append({"obligation": "correspondence Wrap.wrap_lines vs MCNP_Object.wrap_string_for_mcnp",
-                                       "detail": {"n": len(corr_bad), "first": corr_bad[0]}})
+                                       "detail": {"n": len(corr_bad), "first": min(corr_bad, key=lambda b: len(b["case"]["string"]))}})
     if split_bad:
         ctx.broken_obligations.append({"obligation": "real chunks concatenate to the munged text", "detail": split_bad[:2]})
     if sw_bad:
         ctx.broken_obligations.append({"obligation": "TextWrapper._split = Wrap.split_ws on hyphen-free text", "detail": sw_bad[:2]})
-    # the model-level line rules, checked on the real output as well (the theorems are about the model)
+    if ic_bad:
+        ctx.broken_obligations.append({"obligation": "utilities.is_comment = Wrap.is_comment", "detail": ic_bad[:2]})
+    # ---- the property on the real output of every string case, by the independent rules
+    sd = {"lines_judged": 0, "failing_lines": 0}
+    seen_kinds = {}
     for c in cases:
-        for l in real_wrap(c):
-            if len(l) > c["W"]:
-                ctx.fail({"kind": "string-line-too-long", "case": c, "line": l})
-                break
+        for line in c["string"].splitlines():
+            sd["lines_judged"] += 1
+            r = string_oracle_line(line, c["W"], c["first"])
+            if r is None:
+                continue
+            sd["failing_lines"] += 1
+            if seen_kinds.get(r[0], 0) >= 4:       # enough examples of this kind were examined
+                continue
+            seen_kinds[r[0]] = seen_kinds.get(r[0], 0) + 1
+            small = shrink_line(line, c["W"], c["first"], r[0])
+            r2 = string_oracle_line(small, c["W"], c["first"])
+            ctx.fail({"kind": r2[0], "case": {"W": c["W"], "first": c["first"], "string": small}, "detail": r2[1]})
+    # the multi-line call is the concatenation of the per-line calls
+    for c in cases[:300]:
+        real = real_wrap(c)
+        if isinstance(real, str):
+            continue
+        parts = []
+        for line in c["string"].splitlines():
+            r = real_wrap(dict(c, string=line))
+            parts += r if not isinstance(r, str) else [r]
+        if parts != real:
+            ctx.fail({"kind": "string-lines-not-independent", "case": c, "detail": [real, parts]})
+            break
     # ---- whole-problem oracle
-    pd = {"problems": 0, "with_edits": 0, "read_failed": 0, "wrapped80": 0}
-    corpus = []
-    cdir = os.path.join(vlib.VERIF, "corpus", "C10")
-    if os.path.isdir(cdir):
-        for f in sorted(os.listdir(cdir)):
-            with open(os.path.join(cdir, f)) as fh:
-                c = json.load(fh)
-            c = c.get("case", c)
-            c["edits"] = [tuple(e) for e in c.get("edits", [])]
-            corpus.append(c)
-    pd["corpus"] = len(corpus)
-    for i in range(-len(corpus), n_prob):
+    pd = {"problems": 0, "with_edits": 0, "read_failed": 0, "write_failed": 0, "wrapped80": 0,
+          "comment_continuations80": 0, "corpus": len(corpus_p)}
+    for i in range(-len(corpus_p), n_prob):
         rng = random.Random(f"{ctx.seed}:C10:p:{i}")
-        pc = corpus[i + len(corpus)] if i < 0 else problem_case(rng, i)
+        pc = corpus_p[i + len(corpus_p)] if i < 0 else problem_case(rng, i)
         ctx.count_case(("p", pc["text"], str(pc["edits"])), nontrivial=True)
         pd["problems"] += 1
         pd["with_edits"] += bool(pc["edits"])
-        r = check_problem(pc)
+        r = check_problem(pc, pd)
         if r is not None:
             small = shrink_problem(pc, lambda cc: check_problem(cc) is not None)
             r = check_problem(small)
             ctx.fail({"kind": r["kind"], "case": small, "detail": r})
             if len(ctx.violations) >= 3:
                 break
-        if i < 2:
+        if 0 <= i < 2:
             ctx.sample({"problem_text": pc["text"][:600], "edits": pc["edits"]})
     # known findings: replay the committed ones
     for fd in ctx.findings:
         if fd.get("status") == "open" and fd.get("replay"):
             try:
-                with open(os.path.join(vlib.VERIF, fd["replay"])) as fh:
-                    c = json.load(fh)
-                c = c.get("case", c)
-                c["edits"] = [tuple(e) for e in c.get("edits", [])]
-                fd["_reproduced"] = check_problem(c) is not None
+                fd["_reproduced"] = case_fails(load_case(os.path.join(vlib.VERIF, fd["replay"]))) is not None
             except Exception:
                 fd["_reproduced"] = False
     tb = vlib.KERNEL_TB + [
-        "modelled, not verified: textwrap.TextWrapper._wrap_chunks/_handle_long_word (CPython 3.12) and "
-        "MCNP_Object.wrap_string_for_mcnp as coq/Model/Wrap.v; NOT modelled: TextWrapper._split's regular expression "
-        "(chunks are an input of the model; checked per case: chunks concatenate to the munged text; "
-        "hyphen-free text chunks = Wrap.split_ws)",
+        "modelled, not verified: textwrap.TextWrapper._munge_whitespace/_wrap_chunks/_handle_long_word (CPython 3.12), "
+        "montepy.utilities.is_comment, MCNP_Object._wrap_line and MCNP_Object.wrap_string_for_mcnp as coq/Model/Wrap.v; "
+        "NOT modelled: TextWrapper._split's regular expression (the chunks of the line, of its data part and of its "
+        "comment part are inputs of the model; the model refuses chunk lists that do not concatenate to its munged text; "
+        "hyphen-free text chunks = Wrap.split_ws is checked per case); str.splitlines",
         f"vm_compute cross-check of {nx} requests",
     ]
     assumptions = [
-        "C10_resplit assumes chunks = split_ws text (hyphen-free text) and every chunk <= W - 5; "
-        "text with letter-hyphen-letter words can be broken inside a token by textwrap (break_on_hyphens)",
-        "whole-file oracle: spec.py (independent reader) compares the 80- and 128-column outputs of the same problem",
+        "the data-token and comment-text theorems assume chunks = split_ws (breaks at blanks only) and every data chunk "
+        "<= W - 5; text with letter-hyphen-letter words can be broken inside a token by textwrap (break_on_hyphens): "
+        "the string oracle searches exactly that on the real code",
+        "whole-file oracle: spec.py (independent reader) compares the 80- and 128-column outputs of the same problem; "
+        "comment text is compared with blanks removed (where a long comment is broken is not content)",
     ]
     return ctx.finish(tb, assumptions,
-                      "cases = generated strings (tokens, hyphenated words, $ comments, long words, tabs; targets around "
-                      "the 80/128 limits) + generated problems laid out near the limit with number-growing edits; "
-                      "distinct = distinct (W, first, string) or problem text; non-trivial = the string was actually wrapped "
-                      "(or a whole problem)",
-                      extra={"input_distribution": dist, "problem_stream": pd})
+                      "cases = generated strings (data tokens, hyphenated words, long words, tabs, '$' comments after data of "
+                      "every length, 'c' comment lines with every indentation, blank data before '$'; lengths around the "
+                      "80/128 limits) + generated problems laid out near the limit with comments lengthened to the limit and "
+                      "number-growing edits; distinct = distinct (W, first, string) or problem text; non-trivial = the string "
+                      "was actually wrapped (or a whole problem)",
+                      extra={"input_distribution": dist, "string_oracle": sd, "problem_stream": pd})
